@@ -341,10 +341,10 @@ theorem goodLine_plain (limit : Nat) (x : List Char)
       simp only [List.contains_eq_mem, decide_eq_true_eq] at h ⊢
       exact List.mem_of_mem_take h
     rw [h3] at this; exact absurd this (by decide)
-  noAmpDollar := by intro h; rw [h4] at h; exact absurd h (by decide)
+  noAmpDollar := by intro _ h; rw [h4] at h; exact absurd h (by decide)
   hasWords := h5
   dollarSpaced := by
-    intro pre post e
+    intro _ pre post e _
     have : x.contains '$' = true := by rw [e]; simp
     rw [h4] at this; exact absurd this (by decide)
 
